@@ -1,9 +1,13 @@
 import Driver.Json
+import Driver.C01
 open Lean Drv
 
 namespace Drv.C09
 
-def handle (op : String) (_req : Json) : Except String Json :=
-  throw s!"bad-op C09.{op}"
+/-- C09 is about the same entry points as C01 (k-medoids sweeps, k-hybrid): same model, same ops -/
+def handle (op : String) (req : Json) : Except String Json :=
+  match op with
+  | "pam" | "kmedoids" | "hybrid" | "kcenters" => Drv.C01.handle op req
+  | _ => throw s!"bad-op C09.{op}"
 
 end Drv.C09
